@@ -202,7 +202,10 @@ fn gen_plan(seed: u64) -> MacroPlan {
             let consts: Vec<(String, String)> = if nconst == 2 && r.chance(40) {
                 vec![("ck".to_string(), "cv".to_string()), ("ck".to_string(), "later".to_string())]
             } else {
-                [("ck", "cv"), ("dk", "d v")][..nconst].iter().map(|(a, b)| (a.to_string(), b.to_string())).collect()
+                // (an empty value is a value: the explicit constructors keep it)
+                let second = if r.chance(25) { ("dk", "") } else { ("dk", "d v") };
+                let first = if r.chance(15) { ("ck", "") } else { ("ck", "cv") };
+                [first, second][..nconst].iter().map(|(a, b)| (a.to_string(), b.to_string())).collect()
             };
             // (an empty label-name list is legal for the explicit constructors, so it is for the macros)
             let nlab = if r.chance(12) { 0 } else { 1 + r.below(2) as usize };
